@@ -94,7 +94,9 @@ pub fn run_h(rep: &mut Report, cfg: RunCfg) {
                     ..Default::default()
                 },
             };
+            let t_sc = std::time::Instant::now();
             let r = ex.run(false);
+            let sc_wall = t_sc.elapsed().as_secs_f64();
             states += r.stats.states as u64;
             trans += r.stats.transitions as u64;
             for (k, v) in &r.cx.counters {
@@ -105,6 +107,7 @@ pub fn run_h(rep: &mut Report, cfg: RunCfg) {
             sj["scenario"] = sc.describe();
             sj["rayon_pool_size"] = json!(pool);
             sj["oracle_evaluations"] = json!(r.cx.counters);
+            sj["wall_s"] = json!((sc_wall * 10.0).round() / 10.0);
             scs.push(sj);
             for s in r.stats.sample_histories.iter().take(2) {
                 rep.push_sample(json!({"scenario": sc.name, "history": s}));
